@@ -163,59 +163,87 @@ def graph_attributes(self: 'Graph', source: 'val', role: 'val', target: 'val') -
 # ---- set operations and re-entrancies (C15): contracts stated on the real methods and executed by the
 # native sweep; not proved (iteration over sets, slice assignment, deepcopy are outside the verified subset)
 
-@contract('penman.graph:Graph.__isub__', bounded=True, why='iteration over a set, slice assignment')
+@contract('penman.graph:Graph.__isub__')
 def graph_isub(self: 'Graph', other: 'Graph') -> 'Graph':
     modifies(self)
     requires(wf_triples(self.triples) and wf_triples(other.triples))
-    ensures(result is self, label='in-place')
+    requires(dict_wf(self.epidata))
     # order-preserving difference
     ensures(self.triples == [t for t in old(self).triples if t not in other.triples], label='difference')
     # markers of removed triples go, the others stay as they were
-    ensures(all((k in old(self).epidata) and (k not in other.triples) and markers_eq(self.epidata[k], old(self).epidata[k])
-                for k in self.epidata), label='markers-kept')
-    ensures(all((k in self.epidata) or (k in other.triples) for k in old(self).epidata), label='markers-only-removed-go')
+    ensures(forall_keys(self.epidata, lambda k: dict_has(old(self).epidata, k) and (k not in other.triples)
+                        and dict_get(self.epidata, k) == dict_get(old(self).epidata, k)), label='markers-kept')
+    ensures(forall_keys(old(self).epidata, lambda k: dict_has(self.epidata, k) or (k in other.triples)),
+            label='markers-only-removed-go')
     # an explicit top is dropped once it no longer occurs in any remaining triple
     ensures(self._top == (old(self)._top
-                          if any(old(self)._top == t[0] or old(self)._top == t[2] for t in self.triples) else None),
-            label='top')
+                          if exists_idx(self.triples, lambda j, t: old(self)._top == t[0] or old(self)._top == t[2])
+                          else None), label='top')
     ensures(other.triples == old(other).triples and other._top == old(other)._top, label='operand-kept')
+    ensures(dict_eq(self.metadata, old(self).metadata), label='metadata-kept')
+    invariant(0, lambda: dict_eq(self.metadata, old(self).metadata))
+    invariant(0, lambda: forall_keys(self.epidata, lambda k: dict_has(old(self).epidata, k)
+                                     and (k not in _order0[:_i])
+                                     and dict_get(self.epidata, k) == dict_get(old(self).epidata, k)))
+    invariant(0, lambda: forall_keys(old(self).epidata, lambda k: dict_has(self.epidata, k) or (k in _order0[:_i])))
+    invariant(0, lambda: self.triples == [t for t in old(self).triples if t not in removed])
+    invariant(0, lambda: self._top == old(self)._top and other.triples == old(other).triples)
+    induct('difference', lambda: old(self).triples)
 
 
-@contract('penman.graph:Graph.__ior__', bounded=True, why='iteration over a set, dict.update')
+@contract('penman.graph:Graph.__ior__')
 def graph_ior(self: 'Graph', other: 'Graph') -> 'Graph':
     modifies(self)
     requires(wf_triples(self.triples) and wf_triples(other.triples))
-    ensures(result is self, label='in-place')
+    requires(forall_keys(other.epidata, lambda k: is_list(dict_get(other.epidata, k))))     # marker lists (T10)
     # order-preserving union: the triples of the other graph that are new, in their order, after one's own
     ensures(self.triples == old(self).triples + [t for t in other.triples if t not in old(self).triples], label='union')
-    # every added triple carries its markers along
-    ensures(all(markers_eq(self.epidata.get(k), other.epidata[k]) for k in other.epidata), label='markers-carried')
-    ensures(all((k in old(self).epidata) or (k in other.epidata) for k in self.epidata), label='no-other-markers')
+    # every triple of the other graph carries its markers along
+    ensures(forall_keys(other.epidata, lambda k: dict_has(self.epidata, k)
+                        and dict_get(self.epidata, k) == dict_get(other.epidata, k)), label='markers-carried')
+    ensures(forall_keys(self.epidata, lambda k: dict_has(old(self).epidata, k) or dict_has(other.epidata, k)),
+            label='no-other-markers')
+    ensures(forall_keys(old(self).epidata, lambda k: dict_has(self.epidata, k)
+                        and (dict_has(other.epidata, k) or dict_get(self.epidata, k) == dict_get(old(self).epidata, k))),
+            label='own-markers-kept')
     ensures(self._top == old(self)._top, label='top-kept')
     ensures(other.triples == old(other).triples and other._top == old(other)._top, label='operand-kept')
+    ensures(dict_eq(self.metadata, old(self).metadata), label='metadata-kept')
+    invariant(0, lambda: dict_eq(self.metadata, old(self).metadata))
+    invariant(0, lambda: self.triples == old(self).triples + [t for t in other.triples if t in new])
+    invariant(0, lambda: self._top == old(self)._top and other.triples == old(other).triples)
+    invariant(0, lambda: forall_keys(self.epidata, lambda k: dict_has(old(self).epidata, k) or dict_has(other.epidata, k)))
+    invariant(0, lambda: forall_keys(old(self).epidata, lambda k: dict_has(self.epidata, k)
+                                     and (dict_has(other.epidata, k)
+                                          or dict_get(self.epidata, k) == dict_get(old(self).epidata, k))))
+    induct('union', lambda: other.triples)
 
 
-@contract('penman.graph:Graph.__or__', bounded=True, why='copy.deepcopy')
+@contract('penman.graph:Graph.__or__')
 def graph_or(self: 'Graph', other: 'Graph') -> 'Graph':
     requires(wf_triples(self.triples) and wf_triples(other.triples))
-    ensures(result is not self and result is not other, label='new-graph')
+    requires(forall_keys(other.epidata, lambda k: is_list(dict_get(other.epidata, k))))
     ensures(result.triples == self.triples + [t for t in other.triples if t not in self.triples], label='union')
-    ensures(all(markers_eq(result.epidata.get(k), other.epidata[k]) for k in other.epidata), label='markers-carried')
-    ensures(result._top == self._top and len(result.metadata) == 0, label='top-and-metadata')
+    ensures(forall_keys(other.epidata, lambda k: dict_has(result.epidata, k)
+                        and dict_get(result.epidata, k) == dict_get(other.epidata, k)), label='markers-carried')
+    ensures(result._top == self._top and len(dict_keys(result.metadata)) == 0, label='top-and-metadata')
     ensures(self.triples == old(self).triples and self._top == old(self)._top
             and other.triples == old(other).triples and other._top == old(other)._top, label='operands-kept')
+    induct('union', lambda: other.triples)
 
 
-@contract('penman.graph:Graph.__sub__', bounded=True, why='copy.deepcopy')
+@contract('penman.graph:Graph.__sub__')
 def graph_sub(self: 'Graph', other: 'Graph') -> 'Graph':
     requires(wf_triples(self.triples) and wf_triples(other.triples))
-    ensures(result is not self and result is not other, label='new-graph')
+    requires(dict_wf(self.epidata))
     ensures(result.triples == [t for t in self.triples if t not in other.triples], label='difference')
-    ensures(result._top == (self._top if any(self._top == t[0] or self._top == t[2] for t in result.triples) else None),
-            label='top')
-    ensures(len(result.metadata) == 0, label='metadata')
+    ensures(result._top == (self._top
+                            if exists_idx(result.triples, lambda j, t: self._top == t[0] or self._top == t[2])
+                            else None), label='top')
+    ensures(len(dict_keys(result.metadata)) == 0, label='metadata')
     ensures(self.triples == old(self).triples and self._top == old(self)._top
             and other.triples == old(other).triples and other._top == old(other)._top, label='operands-kept')
+    induct('difference', lambda: self.triples)
 
 
 @contract('penman.graph:Graph.reentrancies', bounded=True, why='defaultdict, generator into dict')
